@@ -345,6 +345,7 @@ type world struct {
 	desc          []string
 	racy          map[int64]bool // label sets that were evicted (full-range tombstone in the log)
 	viol          []string
+	pendingOps    int
 	kindsAt       map[int64]int // commit time -> set of sample kinds appended at it
 	boundary      [3]int        // kinds with a sample at mint-1 / mint / mint+1 in some effective truncation
 	unknownOrphan bool
@@ -707,6 +708,69 @@ func appendKind(app storage.Appender, kind int, l labels.Labels, t, n int64) (st
 	return app.Append(0, l, t, float64(n))
 }
 
+// openApp is an appender that stays open across other operations (V1 or V2 interface of the head).
+type openApp struct {
+	v1 storage.Appender
+	v2 storage.AppenderV2
+}
+
+func (w *world) openAppender(v2 bool) *openApp {
+	if v2 {
+		return &openApp{v2: w.head.AppenderV2(context.Background())}
+	}
+	return &openApp{v1: w.head.Appender(context.Background())}
+}
+
+func (a *openApp) append(kind int, l labels.Labels, t, n int64) error {
+	if a.v1 != nil {
+		_, err := appendKind(a.v1, kind, l, t, n)
+		return err
+	}
+	var (
+		h  *histogram.Histogram
+		fh *histogram.FloatHistogram
+	)
+	switch kind {
+	case 1:
+		h = tsdbutil.GenerateTestHistogram(n)
+	case 2:
+		fh = tsdbutil.GenerateTestFloatHistogram(n)
+	case 3:
+		h = tsdbutil.GenerateTestCustomBucketsHistogram(n)
+	case 4:
+		fh = tsdbutil.GenerateTestCustomBucketsFloatHistogram(n)
+	}
+	_, err := a.v2.Append(0, l, 0, t, float64(n), h, fh, storage.AppendV2Options{})
+	return err
+}
+
+func (a *openApp) commit() {
+	if a.v1 != nil {
+		must(a.v1.Commit())
+		return
+	}
+	must(a.v2.Commit())
+}
+
+// created reports the series that exist in the head now but not in `before` (created by an open
+// appender: their series record is only logged at Commit) as an ECreate event.
+func (w *world) created(before map[uint64]int64) {
+	after := w.seriesRefs()
+	var ps [][2]int64
+	for _, r := range sortedKeys(after) {
+		if _, ok := before[r]; !ok {
+			ps = append(ps, [2]int64{int64(r), after[r]})
+			if w.labRefs[after[r]] == nil {
+				w.labRefs[after[r]] = map[uint64]bool{}
+			}
+			w.labRefs[after[r]][r] = true
+		}
+	}
+	if len(ps) > 0 {
+		w.events = append(w.events, "ECreate "+pairs(ps))
+	}
+}
+
 type serDef struct {
 	kind  int
 	lset  labels.Labels
@@ -735,7 +799,13 @@ func runCase(outDir string, seed uint64, idx int, corpus int) (string, map[strin
 	if corpus >= 0 {
 		nser = 7
 	}
+	if corpus == 1 {
+		nser = 11
+	}
 	koff := r.Intn(5)
+	if corpus == 1 {
+		koff = 0
+	}
 	sers := make([]*serDef, nser)
 	for i := range sers {
 		ls := []string{"__name__", fmt.Sprintf("m%d", i)}
@@ -801,7 +871,7 @@ func runCase(outDir string, seed uint64, idx int, corpus int) (string, map[strin
 	commit(first, exProb, 8)
 	w.desc = append(w.desc, fmt.Sprintf("series=%d first=%v now=%d", nser, first, now))
 
-	if corpus >= 0 {
+	if corpus == 0 {
 		// fixed reproducer: every record kind (float, histogram, float histogram, NHCB, float NHCB samples,
 		// exemplars, tombstones, metadata) with timestamps 1000..1003 in segment 0, which the checkpoints of
 		// Truncate(1001) and, after a restart, Truncate(1002) fold in: mint-1 / mint / mint+1 for every kind
@@ -840,9 +910,96 @@ func runCase(outDir string, seed uint64, idx int, corpus int) (string, map[strin
 		g = 1003
 		w.desc = append(w.desc, "scripted: all kinds at 1000..1003, Truncate(1001), restart, Truncate(1002), restart, Truncate(1003)")
 	}
+	if corpus == 1 {
+		// fixed reproducer: series 0..4 (one per kind) get an uncommitted append through a V1 appender,
+		// series 5..9 (one per kind) through a V2 appender, each appender also creates a new series; all ten
+		// series are idle (last sample 1000); Truncate(2400) runs while both appenders are open, then they
+		// commit, then Truncate(2450) writes the checkpoint: the samples @2500 need their series records.
+		idle := []int{0, 1, 2, 3, 4, 5, 6, 7, 8, 9}
+		roll := func(n int) {
+			for ; n > 0; n-- {
+				_, err := w.head.VerifC15WAL().NextSegment()
+				must(err)
+				w.events = append(w.events, "ERoll")
+			}
+		}
+		now = 2000
+		commit([]int{10}, 0, 0)
+		roll(3)
+		before := w.seriesRefs()
+		a1, a2 := w.openAppender(false), w.openAppender(true)
+		for _, i := range idle {
+			a := a1
+			if i >= 5 {
+				a = a2
+			}
+			sers[i].count++
+			must(a.append(sers[i].kind, sers[i].lset, 2500, sers[i].count))
+		}
+		must(a1.append(2, labels.FromStrings("__name__", "new_v1"), 2500, 1))
+		must(a2.append(2, labels.FromStrings("__name__", "new_v2"), 2500, 1))
+		w.created(before)
+		w.truncate(2400)
+		a1.commit()
+		a2.commit()
+		w.flushLog()
+		roll(4)
+		w.truncate(2450)
+		g = 2450
+		w.restart(2450)
+		floor = 2450
+		now = 2600
+		w.desc = append(w.desc, "scripted: V1 and V2 appenders open across Truncate(2400), all kinds, then Truncate(2450), restart")
+	}
 	for op := 0; op < nops; op++ {
 		now += int64(10 + r.Intn(400))
 		switch k := r.Intn(100); {
+		case k < 8 && op+2 < nops: // an appender (V1 or V2) that stays open across a truncation
+			// it appends to idle series that are still in the head and to a label set without series
+			d := int64(1 + r.Intn(60))
+			m1 := now - d
+			if m1 <= g || m1 < floor {
+				continue
+			}
+			before := w.seriesRefs()
+			a := w.openAppender(r.Bool())
+			n := 0
+			for i, s := range sers {
+				if !active[i] && s.last < m1 && r.Chance(2, 3) {
+					s.count++
+					if a.append(s.kind, s.lset, now, s.count) == nil {
+						s.last = now
+						w.kindsAt[now] |= 1 << s.kind
+						n++
+					}
+				}
+			}
+			if n == 0 {
+				s := sers[r.Intn(nser)]
+				if s.last < now {
+					s.count++
+					if a.append(s.kind, s.lset, now, s.count) == nil {
+						s.last = now
+					}
+				}
+			}
+			w.created(before)
+			w.truncate(m1)
+			a.commit()
+			commitTimes = append(commitTimes, now)
+			w.flushLog()
+			g = m1
+			w.pendingOps++
+			w.desc = append(w.desc, fmt.Sprintf("open appender v2=%v: %d idle series @%d, truncate(%d) while open, commit", a.v2 != nil, n, now, m1))
+			// the next truncation: above the first one, at or below the pending samples
+			for k := r.Intn(4); k > 0; k-- {
+				_, err := w.head.VerifC15WAL().NextSegment()
+				must(err)
+				w.events = append(w.events, "ERoll")
+			}
+			m2 := now - int64(r.Intn(int(d)))
+			w.truncate(m2)
+			g = m2
 		case k < 45: // commit
 			var which []int
 			for i := range sers {
@@ -1346,6 +1503,9 @@ func main() {
 			if i == 0 { // fixed reproducer: every record kind at mint-1 / mint / mint+1
 				corpus = 0
 			}
+			if i == 1 { // fixed reproducer: appenders open across a truncation
+				corpus = 1
+			}
 			term, desc, w = runCase(f.Out, f.Seed, i, corpus)
 			meta.Hit("head-history")
 			for d, name := range []string{"mint-1", "mint", "mint+1"} {
@@ -1371,6 +1531,9 @@ func main() {
 		}
 		if w.evicted > 0 {
 			meta.Hit("evicted-series")
+		}
+		if w.pendingOps > 0 || (i == 1) {
+			meta.Hit("appender-open-across-truncation")
 		}
 		if w.dupLabs > 0 {
 			meta.Hit("label-set-with-several-refs")
